@@ -130,8 +130,19 @@ def create_stream(ck, tmp, stream, n):
                 reach[k] = reach.get(k, 0) + v
         ck.count(stream, json.dumps(desc, sort_keys=True, default=str), nontrivial=ires[0] == "ok",
                  sample={"top_level_keys": list(desc["SUIT_Envelope_Tagged"].keys()), "bytes": len(ires[1]) if ires[0] == "ok" else ires[1]})
+        if mr != ires:
+            # a difference is asked for a second time, both sides afresh: one that does not come back is counted (coverage:
+            # transient_mismatches) and not reported — it cannot be replayed; one that persists breaks the correspondence, with the whole input kept
+            mr2 = interp.model_batch(ck, [["create", desc, [[p, c] for p, c in files.items()], []]])[0]
+            ires2 = interp.run_impl(interp.impl_create, desc)
+            if mr2 == ires2:
+                ck.cov["transient_mismatches"] = ck.cov.get("transient_mismatches", 0) + 1
+                mr, ires = mr2, ires2
         if mr != ires and not any(b[1] == "Interp.create" for b in ck.broken):
-            ck.broken.append(("corr", "Interp.create", f"description {json.dumps(desc, default=str)[:600]}: model {c08short(mr)} implementation {c08short(ires)}"))
+            os.makedirs(os.path.join(core.VERIF, "replays"), exist_ok=True)
+            with open(os.path.join(core.VERIF, "replays", "C01-correspondence-input.json"), "w") as fh:
+                json.dump(record(desc, files), fh, default=str)
+            ck.broken.append(("corr", "Interp.create", f"description {json.dumps(desc, default=str)[:600]}: model {c08short(mr)} implementation {c08short(ires)} (whole input: replays/C01-correspondence-input.json)"))
         if ires[0] == "ok":
             for why in oracle_envelope(ires[1]):
                 fails.append({"input": record(desc, files), "observed": why, "expected": "digests equal the hashes of the wrapped bytes in the same envelope"})
